@@ -26,7 +26,7 @@ func wproj(b *big.Int) wv {
 	k := new(big.Int).Add(b, half)
 	k.Div(k, two64) // floor
 	s := new(big.Int).Sub(b, new(big.Int).Mul(k, two64))
-	if k.Sign() < 0 || k.BitLen() > 15 || s.BitLen() > 30 {
+	if k.Sign() < 0 || k.BitLen() > 30 || s.BitLen() > 30 {
 		return wv{K: -1, S: 0}
 	}
 	return wv{K: k.Int64(), S: s.Int64()}
@@ -34,7 +34,7 @@ func wproj(b *big.Int) wv {
 
 func wnat(v wv, extra int) *numct.Nat {
 	b := v.big()
-	return numct.NewNatFromBig(b, b.BitLen()+extra)
+	return numct.NewNatFromBig(b, max(b.BitLen(), 1)+extra) // capacity 0 operands: see the nat mode
 }
 
 func runWide() {
